@@ -48,8 +48,11 @@ def run_case(tmp, mode, prior, flags, cfgs, cid):
         disk = {"DB1": BUILTIN + ["S1"], "DA1": BUILTIN + ["SA1"]}
     fs = FakeSnow(create_database_on_connect=True, create_schema_on_connect=True, db_path=path)
     if prior >= 1:
-        fs.connect(database="DB1", schema="S1" if prior == 2 else None)
-        fs.connect(database="DA1", schema="SA1" if prior == 2 else None)
+        c_prior = fs.connect(database="DB1", schema="S1" if prior >= 2 else None)
+        fs.connect(database="DA1", schema="SA1" if prior >= 2 else None)
+        if prior == 3:
+            # the state 'database there, schema missing' reached by a HISTORY of this instance: an earlier connect made the schema, a session dropped it
+            c_prior.cursor().execute("drop schema db1.s1")
     cat0 = catalog(fs.duck_conn)
     dbs0 = dict(disk)
     for d, ss in cat0.items():
@@ -99,8 +102,9 @@ def canon_model(m):
 DISK = {"DB1": {"S1"}, "DA1": {"SA1"}}
 
 
-def oracle(flags, cfgs, obs, probes, final, mode="memory"):
+def oracle(flags, cfgs, obs, probes, final, mode="memory", prior=0):
     cd, cs = flags
+    DISK = {"DB1": set() if prior == 3 else {"S1"}, "DA1": {"SA1"}}     # (prior state 3 dropped DB1.S1 itself)  # noqa: N806
     for (db, sch), o, (probe, err, before, after) in zip(cfgs, obs, probes):
         if o == [0]:
             return f"connect(database={db!r}, schema={sch!r}) raised {err}"
@@ -118,7 +122,7 @@ def oracle(flags, cfgs, obs, probes, final, mode="memory"):
             if d not in before:
                 if not (cd and d == D):
                     return f"connect({db!r},{sch!r}) with create_database_on_connect={cd} created database {d}"
-                new = new - set(BUILTIN) - {"S1", "SA1"}   # schemas that come with an existing file
+                new = new - set(BUILTIN) - DISK.get(d, set())   # schemas that come with an existing file
             if new - ({Sx} if (cs and d == D) else set()):
                 return f"connect({db!r},{sch!r}) with create_schema_on_connect={cs} created schemas {sorted(new)} in {d}"
         if mode == "path-existing" and D in DISK and D in after0 and not DISK[D] <= after0[D]:
@@ -146,15 +150,15 @@ def main():
     tmp.mkdir(parents=True, exist_ok=True)
     specs = []
     modes = ["memory", "path-empty", "path-existing"]
-    for mode, prior, cd, cs, db, sch in itertools.product(modes, (0, 1, 2), (True, False), (True, False), DBS, SCHEMAS):
+    for mode, prior, cd, cs, db, sch in itertools.product(modes, (0, 1, 2, 3), (True, False), (True, False), DBS, SCHEMAS):
         if ck.tier == "quick" and mode != "memory" and ck.rng.random() > 0.3:
             continue
         specs.append((mode, prior, (cd, cs), [(db, sch)]))
     n_single = len(specs)
     for _ in range(100 if ck.tier == "quick" else 3000):
-        specs.append((ck.rng.choice(modes), ck.rng.choice((0, 1, 2)), (ck.rng.random() < 0.5, ck.rng.random() < 0.5),
+        specs.append((ck.rng.choice(modes), ck.rng.choice((0, 1, 2, 3)), (ck.rng.random() < 0.5, ck.rng.random() < 0.5),
                       [(ck.rng.choice(DBS + ["da1", "DC1"]), ck.rng.choice(SCHEMAS + ["sa1", "s2"])) for _ in range(ck.rng.randint(2, 3))]))
-    ck.cov["exhaustive_space"] = (f"{n_single} single connects = storage {modes} x prior state (nothing | DB1,DA1 | DB1.S1,DA1.SA1) x 2x2 flags x "
+    ck.cov["exhaustive_space"] = (f"{n_single} single connects = storage {modes} x prior state (nothing | DB1,DA1 | DB1.S1,DA1.SA1 | the same, then DROP SCHEMA db1.s1) x 2x2 flags x "
                                   f"database {DBS} x schema {SCHEMAS}" + (" (quick: memory complete, the two db_path modes sampled at 30%)" if ck.tier == "quick" else ""))
     cases, impl, extra = [], [], []
     try:
@@ -169,7 +173,7 @@ def main():
         shutil.rmtree(tmp, ignore_errors=True)
     reported = False
     for (mode, prior, flags, cfgs), obs, (final, files, probes) in zip(specs, impl, extra):
-        msg = oracle(flags, cfgs, obs, probes, final, mode)
+        msg = oracle(flags, cfgs, obs, probes, final, mode, prior)
         if msg is None and mode == "memory" and files:
             msg = f"in-memory instance wrote files {files}"
         if msg and not reported:
